@@ -133,16 +133,23 @@ parse_harness!(c41_parse_management, 60, Some(0x0d), 14);
 // fully unstructured (not registered: did not finish in 25 min, see report)
 parse_harness!(c41_parse_u52, 52, None, 7);
 
-/// Undefined messageType nibbles are rejected before anything else is looked at.
+/// Undefined messageType nibbles (4..=7, 0xe, 0xf) are rejected; first octet concrete per pass
+/// (sdoId high nibble 0), the other 63 bytes and the length symbolic.
 #[kani::proof]
+#[kani::unwind(8)]
 fn c41_parse_badtype() {
-    let bytes: [u8; 64] = kani::any();
-    let n: usize = kani::any();
-    kani::assume(n <= 64);
-    let t = bytes[0] & 0x0f;
-    kani::assume(body_len(t).is_none());
-    assert!(Message::deserialize(&bytes[..n]).is_err(), "undefined message types are rejected");
-    kani::cover!(n == 64 && t == 0x4, "type 4, full-length buffer");
+    let types: [u8; 6] = [0x4, 0x5, 0x6, 0x7, 0xe, 0xf];
+    let mut i = 0;
+    while i < 6 {
+        let mut bytes: [u8; 64] = kani::any();
+        bytes[0] = types[i];
+        let n: usize = kani::any();
+        kani::assume(n <= 64);
+        assert!(body_len(types[i]).is_none(), "not a PTPv2 message type");
+        assert!(Message::deserialize(&bytes[..n]).is_err(), "undefined message types are rejected");
+        i += 1;
+    }
+    kani::cover!(true, "all undefined types visited");
 }
 
 // ------------------------------------------------------------------ build direction
